@@ -436,6 +436,7 @@ def expand(prog: 'object') -> list[str]:
                 # caller (comparison orientation, if/else polarity, argument style) like the rest of the caller
                 localnames.table()
                 localnames.restore_function(caller.qualname, caller.node, log)
+                normalize.copy_prop_function(caller.node, keep_)
                 normalize._drop_else(caller.node)
             except Exception as e:  # noqa: BLE001
                 log.append(f'{caller.short}: re-canonicalisation after expansion skipped ({type(e).__name__}: {e})')
